@@ -346,8 +346,14 @@ func discharge(obls []*Obligation, dir string, timeoutS int, agree bool, workers
 			if ok {
 				r = cached
 			} else {
-				if len(text) > 2_000_000 {
-					r = solveResult{verdict: "unknown", backend: "none", output: "VC too large"}
+				if len(text) > 8_000_000 {
+					big := ""
+					for _, ln := range strings.Split(text, "\n") {
+						if len(ln) > 100000 {
+							big += fmt.Sprintf("[%d bytes: %s ...] ", len(ln), ln[:300])
+						}
+					}
+					r = solveResult{verdict: "unknown", backend: "none", output: "VC too large " + big}
 				} else {
 					os.WriteFile(file, []byte(text), 0o644)
 					r, _ = solve(file, timeoutS, agree && ob.Expect == "unsat")
